@@ -17,6 +17,9 @@ func TestVerif_C01(t *testing.T) {
 	defer r.Finish()
 	r.Rule("case = (mailbox kind, senders, messages/sender, handler dwell, throughput budget, GOMAXPROCS, disturbance in {none,restart,panic-resume,panic-restart,batchtell,actor senders,stash}, k hot noise sites) on a fresh actor system; oracle = CAS in-handler word per actor + CAS in-turn word per schedulable at the runTurn hook + race detector on plain fields touched only in Receive; non-trivial = >1 sender and >1 turn observed (contention on the schedule/finish window); distinct by knob tuple and seed")
 	rng := r.Rand(1)
+	// end-of-turn boundary rounds with the overlap monitors (two workers can only
+	// meet in the reset / reclaim window at the end of a turn)
+	c02RunBoundaryFor(t, r, r.Rand(11), r.N(48, 1500), true)
 	n := r.N(64, 1500)
 	for i := 0; i < n; i++ {
 		k := c01GenKnobs(rng, vfMailboxKinds, c01AllDisturbs)
